@@ -33,6 +33,12 @@ package main
 //       (library functions that stay parameters: f_utf8_DecodeRuneInString, f_strconv_ParseInt, f_string_runes;
 //        likewise strings.ToLower / ToUpper, x.M() on an interface parameter, v.String() of a data.Value)
 //     log.Print* (skipped: the process log is not modelled), hooks named in the configuration
+//     for i, ch := range s over the RUNES of a string (written out through utf8.DecodeRuneInString, see runeRange)
+//     a local `var b bytes.Buffer` as the bytes written so far: b.WriteString(s) b.Write(p) b.WriteByte(c) b.Reset()
+//       template.HTMLEscape(&b, p) (text/template; the escaping itself is the parameter f_template_HTMLEscape : bstr -> bstr)
+//       b.String() b.Bytes() b.Len(); any other use of the variable is refused (copies and pointers would alias)
+//     package-level `var m = make(map[V]K)` that a func init() fills as the inverse of a map literal (and nothing
+//       else touches): the inverse list, provided the literal's values are distinct
 //     panic(...)  and calls of methods whose own body ends in panic (t.errorf ...)
 //   over bool, the integer types (int, rune, byte, uint32, uint64, named ones such as
 //   itemType, ast.Pos, ast.AutoescapeType), string, []byte, slices and maps of those,
@@ -87,7 +93,6 @@ package main
 //       measure that is too small makes the translation answer None where Go goes on; a lemma
 //       `model = Some ...` about the function therefore also proves the measure sufficient, and
 //       where a lemma states None it says which of the two it is.
-//   Range over the runes of a string is not in the subset.
 //
 // STATE
 //   Go's effects on data the caller can see become results.  A function's changed state is
@@ -166,6 +171,8 @@ var (
 	tValue  = &gtype{kind: kValue, name: "data.Value", valueKind: -1}
 	tUInt   = &gtype{kind: kInt, name: "untyped int", bits: 0, signed: true, untyped: true, valueKind: -1}
 	tErr    = &gtype{kind: kBool, name: "error", valueKind: -1, isErr: true}
+	// a LOCAL bytes.Buffer, declared by `var x bytes.Buffer`: the bytes written so far (see bufferStmt)
+	tBuffer = &gtype{kind: kString, name: "bytes.Buffer", valueKind: -1}
 )
 
 func intType(name string, bits int, signed bool) *gtype {
@@ -486,6 +493,9 @@ func (g *gen) resolveType(p *gpkg, f *ast.File, e ast.Expr, depth int) *gtype {
 				if p2 := g.gtPkg(q.Name); len(p2.files) > 0 {
 					return g.resolveType(p2, nil, &ast.Ident{Name: x.Sel.Name}, depth+1)
 				}
+			}
+			if f != nil && importOf(f, q.Name) == "bytes" && x.Sel.Name == "Buffer" {
+				return tBuffer
 			}
 			return &gtype{kind: kOther, name: q.Name + "." + x.Sel.Name, valueKind: -1}
 		}
